@@ -694,7 +694,7 @@ fn bcj2(cli: &Cli, rep: &Report, thorough: bool) {
 }
 
 /// Encode with a fixed policy: 0 = convert every opcode that can be, 1 = none, 2 = alternate.
-fn bcj2_encode_policy(orig: &[u8], mode: u32) -> [Vec<u8>; 4] {
+pub(crate) fn bcj2_encode_policy(orig: &[u8], mode: u32) -> [Vec<u8>; 4] {
     let mut main = vec![];
     let mut call = vec![];
     let mut jump = vec![];
